@@ -48,7 +48,8 @@ def _doc_check(x: str, o: dict, note: Note | None) -> Failure | None:
     a = opts.fmt(x, dict(o, ellipses=False))
     b = opts.fmt(x, dict(o, ellipses=True))
     co = canon.canon_out(a)
-    if co[1] != canon.canon_in(x)[1]:
+    neutral = a if not (o.get("smartquotes") or o.get("cleanups")) else opts.fmt(x, dict(o, ellipses=False, smartquotes=False, cleanups=False))
+    if canon.canon_out(neutral)[1] != canon.canon_in(x)[1]:
         # the option-off output is not read back as the input is (a C01 matter); the relation is not meaningful
         if note:
             note.label("skipped_output_misread")
